@@ -189,6 +189,24 @@ def main(argv=None):
     print('%s [%s, seed %d]: %d cases' % (prop, tier, args.seed, len(cases)),
           flush=True)
     results = run_parallel(prop, cases, bs, bt)
+    # Cases whose worker died / timed out or that came back inconclusive
+    # (watchdog, barrier not reached, calibration mismatch) are most often
+    # victims of a loaded machine: run them once more, one case per worker
+    # and with a quarter of the parallelism, before they count.  A case
+    # that reported a violation is never re-run.
+    again = [i for i, r in enumerate(results)
+             if (r.get('died') or r.get('inconclusive'))
+             and not r.get('viol')]
+    if again and len(again) <= max(8, len(cases) // 10):
+        print('  re-running %d died/inconclusive case(s) at low parallelism'
+              % len(again), flush=True)
+        redo = run_parallel(prop, [cases[i] for i in again], 1, bt * 2,
+                            jobs=max(2, NCPU // 4), progress=False)
+        for i, r in zip(again, redo):
+            if not r.get('died'):
+                r['case'] = i
+                r['retried'] = True
+                results[i] = r
     return conclude(prop, mod, tier, args.seed, cases, results, t0,
                     write_evidence=not args.no_evidence)
 
@@ -285,6 +303,7 @@ def conclude(prop, mod, tier, seed, cases, results, t0, write_evidence=True):
         'rule_evaluations': counters,
         'worker_deaths_or_timeouts': len(died),
         'inconclusive_cases': len(inconclusive),
+        'retried_cases': sum(1 for r in results if r.get('retried')),
         'known_findings_seen': {k[1]: len(v) for k, v in known_hits.items()},
     }
     ex = getattr(mod, 'EXHAUSTIVE', None)
